@@ -622,6 +622,35 @@ func (env *SpecEnv) evalCall(n *ast.CallExpr) (Val, types.Type, error) {
 			return Val{}, nil, err
 		}
 		return Val{T: fmt.Sprintf("(= (i_tag %s) %d)", a.T, e.S.tagOf(t))}, tBool, nil
+	case "implements":
+		a, _, err := argv(0)
+		if err != nil {
+			return Val{}, nil, err
+		}
+		t, err := env.lookupType(exprString(n.Args[1]))
+		if err != nil {
+			return Val{}, nil, err
+		}
+		I, ok := t.Underlying().(*types.Interface)
+		if !ok {
+			return Val{}, nil, fmt.Errorf("implements: %s is not an interface", t)
+		}
+		e.ifaces[typeKey(t)] = I
+		return Val{T: fmt.Sprintf("(%s (i_tag %s))", e.S.implementsPred(t), a.T)}, tBool, nil
+	case "haskey":
+		m, mt, err := argv(0)
+		if err != nil {
+			return Val{}, nil, err
+		}
+		k, _, err := argv(1)
+		if err != nil {
+			return Val{}, nil, err
+		}
+		mm, ok := mt.Underlying().(*types.Map)
+		if !ok {
+			return Val{}, nil, fmt.Errorf("haskey on %s", mt)
+		}
+		return Val{T: fmt.Sprintf("(select (select %s %s) %s)", e.hget(env.heap, e.S.mapDomVar(mm)), m.T, k.T)}, tBool, nil
 	case "isnil":
 		a, t, err := argv(0)
 		if err != nil {
